@@ -17,6 +17,7 @@
 import PygModel.Calendar
 import PygProofs.Lemmas.CalendarLemmas
 import PygProofs.Lemmas.CalendarEdge
+import PygProofs.Lemmas.CalendarObj
 
 namespace Pyg.Props.C05
 open Pyg Pyg.Calendar
@@ -915,5 +916,78 @@ theorem clock_strict_mono (c : Cal) (a b : Int) (ha : InTable c a) (hb : InTable
 -- Fri 31 Jan 2020 (a holiday of `jan`) adjusts to Thu 30 Jan, the 21st business day of the range (position 20)
 example : jan.clock 737455 = .ok 20 ∧ jan.clock 737454 = .ok 20 ∧ jan.clock 737458 = .ok 21 ∧ jan.clock 737480 = .error .key :=
   ⟨by rfl, by rfl, by rfl, by rfl⟩
+
+/-! ### round k3: registry histories with TABLE-BUILDING operations (reviews v3 §C05.1, notes j3 "NOT done")
+
+`registry_last` quantifies over `calendar(k, args)` calls.  The registry holds OBJECTS whose business-day table is built once, by the
+first `add(|n| ≥ 2)` / `bdays` / `drange` / `clock`, and kept (`CalObj`, `ObjRegistry`).  The history below may contain any such operation,
+on any key, between the calls. -/
+
+/-- the invariant of every history that does not re-register `k`: the object under `k` has the registered configuration and its
+table — built or not — is not stale -/
+theorem registry_object_invariant (month : Int → Int) (k : String) (c : Cal) (ops : List RegOp)
+    (hops : ∀ op ∈ ops, ∀ a', op = .call k a' → a'.isDefault = true) :
+    ∀ (r0 : ObjRegistry), (∃ o, r0.get? k = some o ∧ o.cal = c ∧ o.WF) →
+      ∃ o, (runObj month r0 ops).get? k = some o ∧ o.cal = c ∧ o.WF := by
+  induction ops with
+  | nil => intro r0 h; exact h
+  | cons op ops ih =>
+    intro r0 ⟨o, hg, hc, hw⟩
+    simp only [runObj, List.foldl_cons]
+    apply ih (fun q hq => hops q (List.mem_cons_of_mem _ hq))
+    cases op with
+    | call k' a' =>
+      refine ⟨o, ?_, hc, hw⟩
+      exact ocalendar_frame month r0 k k' a' o hg (fun e => hops _ (List.mem_cons_self ..) a' (by rw [e]))
+    | use k' u =>
+      simp only [ObjRegistry.step, ObjRegistry.useAt]
+      by_cases e : k' = k
+      · subst e
+        rw [ocalendar_fetch month r0 k' o hg]
+        exact ⟨(o.use u).1, oget?_set_same _ _ _, by rw [CalObj.use_cal, hc], CalObj.use_wf o hw u⟩
+      · refine ⟨o, ?_, hc, hw⟩
+        rw [oget?_set_other _ k k' _ e]
+        exact ocalendar_frame month r0 k k' _ o hg (fun e' => absurd e' e)
+
+/-- **a calendar fetched by key reflects what it was last registered with — through every operation, after any history of calls AND
+table-building operations**: after `calendar(k, args)` registered the key, let the history contain fetches, registrations of other keys
+and `is_bday / adjust / add / bdays / drange / clock` on the calendars fetched under ANY key (`k` included: its table gets built on the
+way).  Then `calendar(k)` is the calendar built from `args`, and every operation on it answers what that calendar answers from its
+own table — no table built for an earlier registration or another key is ever read. -/
+theorem registry_last_objects (month : Int → Int) (r : ObjRegistry) (k : String) (a : CalArgs)
+    (hreg : a.isDefault = false ∨ r.get? k = none)
+    (ops : List RegOp) (hops : ∀ op ∈ ops, ∀ a', op = .call k a' → a'.isDefault = true) (u : Use) :
+    let r' := runObj month ((r.calendar month k a).1) ops
+    (r'.calendar month k ⟨none, none, none, none⟩).2.cal = mkCal month a ∧
+    (r'.calendar month k ⟨none, none, none, none⟩).2.cal.hol = a.hol.getD [] ∧
+    (r'.useAt month k u).2 = (mkCal month a).use u := by
+  have h0 : ∃ o, ((r.calendar month k a).1).get? k = some o ∧ o.cal = mkCal month a ∧ o.WF := by
+    refine ⟨CalObj.fresh (mkCal month a), ?_, rfl, CalObj.fresh_wf _⟩
+    unfold ObjRegistry.calendar
+    rcases hreg with h | h
+    · cases hg : r.get? k <;> simp [h, oget?_set_same]
+    · simp [h, oget?_set_same]
+  obtain ⟨o, hg, hc, hw⟩ := registry_object_invariant month k (mkCal month a) ops hops _ h0
+  simp only
+  rw [ocalendar_fetch month _ k o hg]
+  refine ⟨hc, by rw [hc]; rfl, ?_⟩
+  simp only [ObjRegistry.useAt]
+  rw [ocalendar_fetch month _ k o hg, CalObj.use_ans o hw u, hc]
+
+/-- the hypotheses are satisfiable on a history with table-building operations: register UK with a holiday, build its table (`add 2`),
+register US, use it, fetch UK -/
+example : (CalArgs.mk (some [737455]) none none none).isDefault = false ∧
+    ∀ op ∈ [RegOp.use "UK" (.add .m 737455 2), .call "US" (CalArgs.mk (some []) none none none), .use "US" (.bdays .m 737455 737460),
+            .call "UK" (CalArgs.mk none none none none), .use "UK" (.clock 737455)],
+      ∀ a', op = .call "UK" a' → a'.isDefault = true := by
+  refine ⟨by decide, ?_⟩
+  intro op hop a' h
+  simp only [List.mem_cons, List.not_mem_nil, or_false] at hop
+  rcases hop with rfl | rfl | rfl | rfl | rfl
+  · cases h
+  · injection h with h1 h2; exact absurd h1 (by decide)
+  · cases h
+  · injection h with h1 h2; subst h2; decide
+  · cases h
 
 end Pyg.Props.C05
